@@ -436,9 +436,7 @@ impl<'buf> ModuleReader<'buf> {
                 start_address: None,
                 error: nix::Error::EOVERFLOW,
             })?;
-        let name = self
-            .module_memory
-            .read(offset, strtab_size - name_offset)?;
+        let name = self.module_memory.read(offset, strtab_size - name_offset)?;
         CStr::from_bytes_until_nul(&name)
             .map(|s| s.to_string_lossy().into_owned())
             .map_err(|_| Error::StrTabNoNulByte)
